@@ -435,6 +435,16 @@ def single_assignments(fnode):
     return {k: v for k, v in val.items() if cnt.get(k) == 1}
 
 
+def ast_copy(node):
+    """deep copy of an AST subtree that does not follow the ``_parent`` link out of it"""
+    import copy
+    memo = {}
+    par = getattr(node, '_parent', None)
+    if par is not None:
+        memo[id(par)] = None
+    return copy.deepcopy(node, memo)
+
+
 class _Subst(ast.NodeTransformer):
     def __init__(self, env, depth=3):
         self.env, self.depth = env, depth
@@ -442,7 +452,7 @@ class _Subst(ast.NodeTransformer):
     def visit_Name(self, node):
         if isinstance(node.ctx, ast.Load) and node.id in self.env and self.depth > 0:
             import copy
-            v = copy.deepcopy(self.env[node.id])
+            v = ast_copy(self.env[node.id])
             return _Subst(self.env, self.depth - 1).visit(v)
         return node
 
@@ -482,7 +492,7 @@ def expander(fnode, only=None):
 
     def expand(e):
         import copy
-        new = _Subst(env).visit(copy.deepcopy(e))
+        new = _Subst(env).visit(ast_copy(e))
         ast.fix_missing_locations(new)
         for p in ast.walk(new):
             for c in ast.iter_child_nodes(p):
@@ -567,7 +577,7 @@ def inlined(ctx, fi, depth=2):
                     for k in st.value.keywords:
                         if k.arg:
                             env[k.arg] = k.value
-                    hb = [copy.deepcopy(x) for x in h.node.body
+                    hb = [ast_copy(x) for x in h.node.body
                           if not (isinstance(x, ast.Expr) and isinstance(x.value, ast.Constant))]
                     hb = [_Subst(env, 1).visit(x) for x in hb]
                     for x in hb:
@@ -586,7 +596,7 @@ def inlined(ctx, fi, depth=2):
                 hd.body = expand_body(hd.body, d)
             out.append(st)
         return out
-    new = copy.deepcopy(fi.node)
+    new = ast_copy(fi.node)
     new.body = expand_body(new.body, depth)
     ast.fix_missing_locations(new)
     for p in ast.walk(new):
